@@ -4,11 +4,14 @@
       S3_ok     : a removed block is at VALID_UNKNOWN, carries no ACTIVE / HAS_PAYLOADS and has only removed children;
       Tips_ok   : tips = { b | canBeATip b and no child canBeATip };
     together with [tip_ok]: the best chain root..tip runs through non-failed blocks only.
-    Not proved in the model (checked on the implementation after every step by harness/invariants.hpp C1, C2, V2):
-    "ACTIVE <=> on the best chain", "appliedBlockCount = |chain|", "connected => ancestors connected". *)
+      lm_ok     : the validity level of a block never exceeds the level of its parent (connected => ancestors connected);
+    [Inv_all] = Inv_tree + lm_ok + tip_ok is ONE invariant preserved by every operation.
+    Not proved in the model (checked on the implementation after every step by harness/invariants.hpp C1, C2):
+    "ACTIVE <=> on the best chain" and "appliedBlockCount = |chain|" (they need the unapply/apply loops of
+    PopStateMachine::setState related to the parent paths of both tips). *)
 From Coq Require Import ZArith NArith List Bool.
 From VB Require Import Tree.TreeDefs Tree.TreeInv Tree.TreePass Tree.TreeProofs Tree.TreeExact Tree.TreeMono
-  Tree.TreeSteps Tree.TreeChain Tree.TreeTips Tree.TreeTipsOps Tree.TreeTipsUp Tree.TreeTipsAlt Tree.TreeDeleted Tree.TreeTipsAll.
+  Tree.TreeSteps Tree.TreeChain Tree.TreeTips Tree.TreeTipsOps Tree.TreeTipsUp Tree.TreeTipsAlt Tree.TreeDeleted Tree.TreeTipsAll Tree.TreeLevels Tree.TreeAll.
 Import ListNotations.
 
 Theorem C07_init_alt : forall h, Inv_flags (alt_init h) /\ tip_ok (alt_init h).
@@ -43,6 +46,30 @@ Print Assumptions C07_Inv_tree_step.
 Theorem C07_Inv_tree_run : forall ops s, Inv_tree s -> Inv_tree (run s ops).
 Proof. exact Inv_tree_run. Qed.
 Print Assumptions C07_Inv_tree_run.
+
+(* everything at once: Inv_tree + level monotonicity + non-failed best-chain tip *)
+Theorem C07_Inv_all_init_alt : forall h, Inv_all (alt_init h).
+Proof. exact Inv_all_init_alt. Qed.
+Print Assumptions C07_Inv_all_init_alt.
+
+Theorem C07_Inv_all_init_pow : forall h w, Inv_all (pow_init h w).
+Proof. exact Inv_all_init_pow. Qed.
+Print Assumptions C07_Inv_all_init_pow.
+
+Theorem C07_Inv_all_step : forall s o, Inv_all s -> Inv_all (step s o).
+Proof. exact Inv_all_step. Qed.
+Print Assumptions C07_Inv_all_step.
+
+Theorem C07_Inv_all_run : forall ops s, Inv_all s -> Inv_all (run s ops).
+Proof. exact Inv_all_run. Qed.
+Print Assumptions C07_Inv_all_run.
+
+(* a connected ALT block has only connected ancestors *)
+Theorem C07_connected_ancestors :
+  forall s, Inv_all s -> forall c x, find_blk c (blocks s) = Some x -> valid_upto L_CONNECTED (bst x) = true ->
+  forall a z, In a (path (blocks s) c) -> find_blk a (blocks s) = Some z -> valid_upto L_CONNECTED (bst z) = true.
+Proof. exact connected_ancestors_connected. Qed.
+Print Assumptions C07_connected_ancestors.
 
 (* a block is valid only if its parent is not failed; every child of a failed block is failed *)
 Theorem C07_valid_parent_not_failed :
